@@ -350,6 +350,9 @@ func (b *Body) classifyErrVar(at ast.Node, v *types.Var) int {
 // condNilness: +1 if cond being true implies v != nil, -1 if it implies v == nil, 0 otherwise.
 func condNilness(info *types.Info, cond ast.Expr, v *types.Var) int {
 	cond = ast.Unparen(cond)
+	if u, ok := cond.(*ast.UnaryExpr); ok && u.Op == token.NOT {
+		return condNilnessWhenFalse(info, u.X, v)
+	}
 	if be, ok := cond.(*ast.BinaryExpr); ok {
 		switch be.Op {
 		case token.LAND:
@@ -372,6 +375,9 @@ func condNilness(info *types.Info, cond ast.Expr, v *types.Var) int {
 // condNilnessWhenFalse: what cond being false implies about v.
 func condNilnessWhenFalse(info *types.Info, cond ast.Expr, v *types.Var) int {
 	cond = ast.Unparen(cond)
+	if u, ok := cond.(*ast.UnaryExpr); ok && u.Op == token.NOT {
+		return condNilness(info, u.X, v)
+	}
 	if be, ok := cond.(*ast.BinaryExpr); ok {
 		switch be.Op {
 		case token.LOR:
